@@ -4,7 +4,8 @@ terms of the marked language of the pattern (KlogV/Regex/Basic.lean: capture gro
 `closeSym i`).  Core Lean only.
 -/
 import KlogV.Regex.Basic
-import KlogV.GoSem.Abs
+import KlogV.GoSem.AbsBase
+import KlogV.Lemmas.RegexModel4
 namespace KlogV
 open KlogV.Go KlogV.Rx
 
